@@ -341,7 +341,27 @@ MUTATORS = {"remove", "discard", "pop", "popitem", "add", "append", "appendleft"
             "popleft", "difference_update", "intersection_update", "symmetric_difference_update", "__setitem__", "__delitem__", "sort", "reverse"}
 
 
-def rule_shared_state_atomic(ctx, rid, engine):
+def rule_callback_state_private(ctx, rid):
+    """The functions the engine runs on its workers for the two phases (the run callback and the stale-check callback, with whatever
+    they call on objects their host builds for the phase) execute concurrently, one invocation per node.  State that outlives an
+    invocation and is not the invocation's own element (`table[node]` for a parameter `node`) must not be modified outside a lock:
+    a bracket object shared by all invocations that remembers "the current node" names the wrong call as soon as two calls overlap."""
+    m = ctx.model
+    eng = m.one_func("run_function_on_graph", "ENGINE")
+    hosts = []
+    for f in m.funcs.values():
+        if f is eng or isinstance(f.node, ast.Lambda):
+            continue
+        if any(eng in m.callee_funcs(f, c) for c in f.own_calls()):
+            hosts.append(f)
+    if not hosts:
+        raise AnalysisError("no caller of the engine found")
+    for h in sorted(hosts, key=lambda f_: f_.qualname):
+        rule_shared_state_atomic(ctx, rid, h, per_item_exempt=True, floor=0)
+    ctx.floor(rid, "hosts of worker callbacks examined", len(hosts), 2)
+
+
+def rule_shared_state_atomic(ctx, rid, engine, per_item_exempt=False, floor=3):
     """Check-then-act on state shared between the workers (role-free form of A2).  In the code the worker threads execute - every
     closure of the engine, and every method of a package class reachable from them - state that outlives the invocation (a variable
     of the engine's scope, an attribute of `self`, or a local alias of one of their elements, `x = shared[k]`) and that the function
@@ -361,6 +381,10 @@ def rule_shared_state_atomic(ctx, rid, engine):
                 built |= set(o_[1].repo_mro())
     methods = [f for f in m.reachable(closures, kinds=("call",)) if f.cls is not None and f.cls in built and f not in closures
                and f.name != "__init__" and f.pos_params]
+    if per_item_exempt:
+        # a callback may be an object: every method of a class the host instantiates is worker code (construction excluded)
+        methods = sorted({f for f in m.funcs.values() if f.cls is not None and f.cls in built and f.name not in ("__init__", "__post_init__")
+                          and f.pos_params and not isinstance(f.node, ast.Lambda)} | set(methods), key=lambda f_: f_.qualname)
     for cb in closures + sorted(methods, key=lambda f_: f_.qualname):
         mod = cb.module
         locks = lock_withs(m, cb)
@@ -377,8 +401,20 @@ def rule_shared_state_atomic(ctx, rid, engine):
         # local aliases of elements of shared containers
         alias = {}
 
+        own_item = set()   # local names bound to the invocation's own element: `x = table[node]` for a parameter `node`
+
+        def per_item(x):
+            while isinstance(x, (ast.Subscript, ast.Attribute)):
+                if isinstance(x, ast.Subscript) and isinstance(x.slice, ast.Name) and x.slice.id in cb.params and \
+                        not (selfp and x.slice.id == selfp):
+                    return True
+                x = x.value
+            return isinstance(x, ast.Name) and x.id in own_item
+
         def base_key(x):
             """The piece of shared state an expression denotes or lives in: a shared variable, or `self.attr`."""
+            if per_item_exempt and per_item(x):
+                return None
             while isinstance(x, (ast.Subscript, ast.Attribute)):
                 if selfp and isinstance(x, ast.Attribute) and is_name(x.value, selfp):
                     return f"{selfp}.{x.attr}"
@@ -392,6 +428,10 @@ def rule_shared_state_atomic(ctx, rid, engine):
         for n in cb.own_nodes():
             if isinstance(n, ast.Assign) and len(n.targets) == 1 and isinstance(n.targets[0], ast.Name):
                 v = n.value
+                if per_item_exempt and isinstance(v, (ast.Subscript, ast.Attribute)) and per_item(v) and \
+                        sum(1 for b_ in cb.bindings.get(n.targets[0].id, [])) == 1:
+                    own_item.add(n.targets[0].id)
+                    continue
                 if isinstance(v, (ast.Subscript, ast.Attribute)) and not (selfp and isinstance(v, ast.Attribute) and is_name(v.value, selfp)):
                     k_ = base_key(v)
                     if k_ is not None:
@@ -467,7 +507,8 @@ def rule_shared_state_atomic(ctx, rid, engine):
                        f"`{norm(st)[:60]}` reads shared `{name}`, which this function modifies, outside the lock region of that "
                        f"modification: two workers can both modify and then both observe the same state (e.g. both find a successor ready "
                        f"and enqueue it twice)", head(st))
-    ctx.floor(rid, "modifications / reads of worker-shared state examined", n_sites, 3)
+    if floor:
+        ctx.floor(rid, "modifications / reads of worker-shared state examined", n_sites, floor)
 
 
 def names_free_in(m, f, scope):
